@@ -29,6 +29,7 @@ type c19case struct {
 	GitIgnore  bool     `json:"gitignore"`          // a .gitignore exists in cwd
 	InitHere   string   `json:"init_here"`          // for --init from a nested dir: "" | "file" | "dir" (a spokfile already exists in cwd)
 	SpokIsFile bool     `json:"dot_spok_is_a_file"` // a regular file named .spok sits where the cache directory would go
+	Linked     bool     `json:"linked_spokfile,omitempty"` // the project's spokfile is a symbolic link to ../common/spokfile
 }
 
 func (k c19case) key() string { b, _ := json.Marshal(k); return string(b) }
@@ -151,6 +152,7 @@ func c19Gen(r *core.Rng) c19case {
 	k.Nested = r.Chance(35)
 	k.GitIgnore = r.Chance(50)
 	k.SpokIsFile = r.Chance(8)
+	k.Linked = k.Variant != "none" && k.Variant != "directory" && r.Chance(12)
 	var tasks []string
 	for _, st := range p.Stmts {
 		if st.Kind == "task" {
@@ -232,7 +234,17 @@ func c19Judge(c *core.Ctx, k c19case, res *core.ShardResult) (vs []core.Violatio
 		_ = os.MkdirAll(spokPath, 0o755)
 		_ = os.WriteFile(filepath.Join(spokPath, "inner.txt"), []byte("x"), 0o644)
 	default:
-		_ = os.WriteFile(spokPath, []byte(k.Spokfile), 0o644)
+		if k.Linked {
+			// shared between projects: the text lives in a sibling directory, the project holds a link to it.
+			// The project (its files, its cache) is still where the link is.
+			_ = os.MkdirAll(filepath.Join(home, "common"), 0o755)
+			_ = os.WriteFile(filepath.Join(home, "common", "spokfile"), []byte(k.Spokfile), 0o644)
+			_ = os.WriteFile(filepath.Join(home, "common", "a.txt"), []byte("not the project's a.txt\n"), 0o644)
+			_ = os.Symlink(filepath.Join("..", "common", "spokfile"), spokPath)
+			res.Count("linked_spokfiles", 1)
+		} else {
+			_ = os.WriteFile(spokPath, []byte(k.Spokfile), 0o644)
+		}
 	}
 	cwd := proj
 	if k.Nested {
@@ -385,6 +397,9 @@ func c19Judge(c *core.Ctx, k c19case, res *core.ShardResult) (vs []core.Violatio
 	case has("--fmt"):
 		res.Count("fmt_on_valid_spokfile", 1)
 		allowed[spokPath] = "--fmt rewrites the spokfile"
+		if k.Linked {
+			allowed[filepath.Join(home, "common", "spokfile")] = "--fmt rewrites the spokfile (through the link)"
+		}
 		if inv.Exit != 0 {
 			bad("fmt-succeeds", "--fmt failed on a spokfile that parses and loads: %s", core.Trunc(inv.Stderr, 300))
 			return
